@@ -309,3 +309,92 @@ step_harness!(c06a_canary, 18, {
     assert!(r.is_none(), "canary: must be reported as failing");
     std::mem::forget(m);
 });
+
+// ---------------------------------------------------------------- C06.b in-place add: prepare_file_data -> reader
+// The bytes and flags MutableArchive::prepare_file_data produces, placed where add_file_data places them,
+// are read back bit-identically by the real reader (same abstract codec pair as C01.d).
+static mut P_SHRINKS: bool = false;
+static mut P_PAYLOAD: [u8; 2] = [0; 2];
+static mut P_ORIG: [u8; 8] = [0; 8];
+static mut P_ORIG_LEN: usize = 0;
+
+fn p_compress_stub(data: &[u8], method: u8) -> Result<Vec<u8>> {
+    unsafe {
+        if P_SHRINKS && data.len() > 4 && data.len() <= 8 {
+            P_ORIG_LEN = data.len();
+            P_ORIG[..data.len()].copy_from_slice(data);
+            let mut v = Vec::with_capacity(4);
+            v.push(method);
+            v.push(0x77);
+            v.extend_from_slice(&P_PAYLOAD);
+            Ok(v)
+        } else {
+            Ok(data.to_vec())
+        }
+    }
+}
+fn p_decompress_stub(data: &[u8], _method: u8, expected: usize) -> Result<Vec<u8>> {
+    unsafe {
+        if data.len() == 3 && data[0] == 0x77 && data[1] == P_PAYLOAD[0] && data[2] == P_PAYLOAD[1] && expected == P_ORIG_LEN {
+            Ok(P_ORIG[..P_ORIG_LEN].to_vec())
+        } else {
+            Err(Error::compression("abstract codec: not the stream that was produced"))
+        }
+    }
+}
+
+fn inplace_roundtrip(compress_on: bool, shrinks: bool, encrypt: bool, fix_key: bool) {
+    let data: [u8; 5] = kani::any();
+    unsafe { P_SHRINKS = shrinks; P_PAYLOAD = kani::any(); H = [[0, 1, 1], [1, 2, 2], [2, 3, 3], [3, 4, 4]]; }
+    let pre = Pre { kind: [EMPTY; 4], blk: [0; 4] };
+    let m = build(&pre);
+    let mut opts = AddFileOptions::new().compression(if compress_on { CompressionMethod::Zlib } else { CompressionMethod::None });
+    if encrypt { opts = opts.encrypt(); }
+    if fix_key { opts = opts.fix_key(); }
+    let r = m.prepare_file_data(&data, "a", &opts, 512);
+    assert!(r.is_ok(), "prepare_file_data failed on valid input");
+    let (bytes, stored, flags) = r.unwrap();
+    kani::cover!(stored > 0);
+    // place the bytes as add_file_data does: at a 512-aligned offset, block entry from the returned values
+    let mut img = [0xEEu8; 544];
+    let mut i = 0;
+    while i < bytes.len() {
+        img[512 + i] = bytes[i];
+        i += 1;
+    }
+    memfile::set_image(&img[..512 + bytes.len()]);
+    let mut ht = HashTable::new_mut(4).unwrap();
+    *ht.get_mut(0).unwrap() = HashEntry { name_1: 1, name_2: 1, locale: 0, platform: 0, block_index: 0 };
+    let mut bt = BlockTable::new_mut(1).unwrap();
+    *bt.get_mut(0).unwrap() = BlockEntry { file_pos: 512, compressed_size: stored as u32, file_size: 5, flags };
+    let mut a = fab_archive(ht, bt, 0);
+    let got = a.read_file("a");
+    assert!(got.is_ok(), "file added in place cannot be read back");
+    let got = got.unwrap();
+    assert!(got.len() == 5, "file added in place reads back with a different length");
+    let k: usize = kani::any();
+    kani::assume(k < 5);
+    assert!(got[k] == data[k], "file added in place reads back with different content");
+    std::mem::forget((m, a, got, bytes, opts));
+}
+
+macro_rules! inplace_harness {
+    ($name:ident, $c:expr, $s:expr, $e:expr, $f:expr) => {
+        #[kani::proof]
+        #[kani::unwind(80)]
+        #[kani::stub(std::fmt::format, vio::fmt_stub)]
+        #[kani::stub(crate::crypto::hash_string, hs_stub)]
+        #[kani::stub(std::hash::RandomState::new, rs_stub)]
+        #[kani::stub(<std::fs::File as std::io::Read>::read, memfile::mem_read)]
+        #[kani::stub(<std::fs::File as std::io::Read>::read_buf, memfile::mem_read_buf)]
+        #[kani::stub(<std::fs::File as std::io::Seek>::seek, memfile::mem_seek)]
+        #[kani::stub(crate::compression::compress::compress, p_compress_stub)]
+        #[kani::stub(crate::compression::decompress::decompress, p_decompress_stub)]
+        fn $name() { inplace_roundtrip($c, $s, $e, $f) }
+    };
+}
+inplace_harness!(c06b_inplace_plain, false, false, false, false);
+inplace_harness!(c06b_inplace_codec, true, true, false, false);
+inplace_harness!(c06b_inplace_enc, false, false, true, false);
+inplace_harness!(c06b_inplace_enc_codec, true, true, true, false);
+inplace_harness!(c06b_inplace_enc_fix_witness, false, false, true, true);
